@@ -349,6 +349,11 @@ func regexpNext(sb *strings.Builder, sl *stringLexer, mode Mode) error {
 					bsb.WriteString(regexp.QuoteMeta(string(c)))
 				}
 			case '-':
+				if first := bsb.String(); first == "[" || first == "[^" {
+					// A leading '-' stands for itself, and may start a range.
+					bsb.WriteByte('-')
+					break
+				}
 				bsb.WriteByte('-')
 				start := sl.last()
 				end := sl.peekNext()
